@@ -793,7 +793,7 @@ func checkC17(c *hx.Checker) {
 	}
 	c.Rule = fmt.Sprintf("(1) frozen-state pass on %d subjects (every registered operator under every caller-input / initializer role assignment, the compositions, the sample models): weight tensors (header, shape, strides, data) and every repeated scalar field of the model proto are relocated into an mmap arena and mprotect'ed read-only; Run(A), Run(B), Run(C = first row of A: another batch size), Run(A) must complete without a write fault and with the reference outputs. "+
 		"(2) interleaving exploration on %d subjects (per operator the role assignment with the most shared weights; compositions; mlp, scaler, gru): cooperative scheduler with scheduling points at thread start, before GetOperator / Init / ValidateInputs / Apply of every node, between consecutive Runs and at thread end; depth-first enumeration of ALL schedules with <= %d preemptions for 2 threads {Run(A);Run(B)} || {Run(failing inside an operator); Run(C = batch-1 feed, or B)} and <= %d preemptions for 3 threads (+ {NewModelFromBytes; Run(A)} on a further model); every thread's outputs must equal the solo result and the shared-state digest must equal the load-time digest after every step. "+
-		"(3) supplementary free-running passes: 16 goroutines x 30 Runs on one shared Model (feeds A, B and the batch-1 feed C interleaved, every fifth Run preceded by a call that fails inside an operator), and 8 goroutines x 10 rounds of NewModelFromBytes+Run, per exploration subject, results compared with the solo result (thorough: the same bodies in a separately built -race binary). "+
+		"(3) supplementary free-running passes: 16 goroutines x 30 Runs on one shared Model (feeds A, B and the batch-1 feed C interleaved, every fifth Run preceded by a call that fails inside an operator), and 8 goroutines x 10 rounds of NewModelFromBytes+Run, per exploration subject, results compared with the solo result; the same bodies (cold start first) in a separately built -race binary: every race report with a gonnx frame is a violation. "+
 		"(0) global-state pass in a fresh process (nothing warmed up, no self-check): the bytes of every writable package-level symbol of the library inside the check binary (ELF symbol table; %d symbols) are hashed one level deep (map element counts, leading bytes of pointed-to structs and slice backing arrays) before anything runs and after load+Run of every exploration subject (runtime caches and the protobuf descriptor are excluded by name); a change is escalated to 16x150 Runs + 16x60 loads + 80 cold-start processes and reported only if interference is confirmed. "+
 		"(3b) cold-start pass (supplementary): per exploration subject and mode (16 goroutines load+Run / one load then 16 concurrent Runs) fresh processes whose very first use of the library is concurrent; a crash of such a process (e.g. concurrent map writes) or a deviating result is reported. "+
 		"states = scheduling points visited, transitions = thread steps executed; non-trivial = every exploration and frozen case", len(subs), len(expl), b2, b3, nGlobals())
@@ -896,14 +896,15 @@ func checkC17(c *hx.Checker) {
 		}
 		c.Note(info, "ok:stress-clean", nil)
 	})
-	if thorough {
-		racePass(c)
-	}
+	racePass(c)
 }
 
 // racePass runs the free-running bodies in the separately built -race binary (bin/mc-race).
 func racePass(c *hx.Checker) {
 	bin := hx.VerifDir() + "/bin/mc-race"
+	if b := os.Getenv("VERIF_RACE_BIN"); b != "" {
+		bin = b // run.sh builds it next to the plain binary, against the same repository tree
+	}
 	if _, err := os.Stat(bin); err != nil {
 		c.Extra["race_pass"] = "skipped: bin/mc-race not built"
 		return
